@@ -30,7 +30,7 @@ func boundsFor(prop, tier string) map[string]interface{} {
 		b["outside"] = "longer datagram sequences (argued: the receive loop keeps no state but its deadline)"
 	case "C04":
 		b["replies"] = "symbolic length 0..2048 and content on four routes (broadcast filter, UDP, TCP nil reply, transport error)"
-		b["arguments"] = "nil maps, nil / short IPs, invalid AddrPort, zero dates, enum values over their whole integer range; configured controllers without a time zone"
+		b["arguments"] = "nil maps, nil / short IPs, invalid AddrPort, zero dates, enum values over their whole integer range; configured controllers without a time zone; years 10000, 12345, 99999, -1, -2023 (concrete)"
 		b["debug_dump"] = "codec.Dump on byte strings of length 0..40"
 		b["shutdown"] = "quit while one event is being delivered to a slow callback and a second one waits (timer-driven schedule)"
 		b["outside"] = "years outside 0..9999; panics inside fmt / encoding/json internals (trusted)"
